@@ -208,6 +208,9 @@ static ssize_t shorten(int fd, size_t n, int *eintr)
 		if (n < 2)
 			return n;
 		++delivered_short;
+		/* a third of the short transfers are tiny (1..7 bytes): shorter than any magic number or length field */
+		if (rnd() % 3 == 0)
+			return 1 + rnd() % (n - 1 < 7 ? n - 1 : 7);
 		return 1 + rnd() % (n - 1);
 	}
 }
